@@ -387,6 +387,9 @@ func (g *c11XGen) nodeSet(depth int) string {
 		return g.pick("nsSimple", "*", "text()", "node()", "..", ".", "@*")
 	case 6:
 		return g.pick("nsUp", "../@", "../../@", "parent::*/@", "ancestor::*/@") + g.attrTest()
+	case 9:
+		// whole node-sets of an upward axis (the string value of EVERY ancestor takes part in a general comparison)
+		return g.pick("nsAnc", "ancestor::*", "ancestor-or-self::*", "ancestor::node()", "ancestor::"+rapid.SampledFrom(g.names).Draw(g.t, "ancName"), "../..", "ancestor::*[2]")
 	case 7:
 		return g.pick("nsSib", "following-sibling::*", "preceding-sibling::*", "following-sibling::*[1]", "preceding-sibling::*[1]",
 			"following-sibling::node()", "preceding-sibling::node()[1]", "following::*", "preceding::*[1]")
@@ -477,6 +480,21 @@ func c11DrawXPath(t *rapid.T, d *c11DocGen) string {
 		return lead + g.relPath(4, 0)
 	}
 	switch rapid.IntRange(0, 19).Draw(t, "exprKind") {
+	case 5:
+		// the commonest xpath of all in schemas: nothing but an element name (bare or prefixed), or name/name
+		one := func(l string) string {
+			n := rapid.SampledFrom(g.names).Draw(t, l)
+			if rapid.IntRange(0, 2).Draw(t, l+"bare") == 0 {
+				if i := strings.Index(n, ":"); i >= 0 {
+					n = n[i+1:] // the local name of a prefixed one, written without prefix
+				}
+			}
+			return n
+		}
+		if rapid.Bool().Draw(t, "plainTwo") {
+			return one("plainA") + "/" + one("plainB")
+		}
+		return one("plainA")
 	case 0:
 		return path() + "|" + path()
 	case 1:
